@@ -305,6 +305,10 @@ def run(ctx: Any) -> None:
         nonlocal case_no
         case_no += 1
         h = handle(kind, maxc)
+        if getattr(h, "broken", False):
+            # a connection hung on this server before (already reported): its slots / threads are in an unknown state
+            ctx.tally("skipped", f"{kind}/{maxc}: server hung earlier")
+            return
         r = D.run_case(h, scripts, rng, f"k{case_no}", fixed_schedule=fixed, serve_raises=serve_raises)
         ctx.count("impl_runs")
         repl = {"scenario": name, "transport": kind, "max_connections": maxc, "programs": progs, "scripts": scripts, "schedule": r["schedule"]}
@@ -324,7 +328,10 @@ def run(ctx: Any) -> None:
         # ---- anomalies of the run itself (hangs are observations, never harness hangs)
         for a in r["anomalies"]:
             key = "connection-hang" if a.startswith("hang") else a.split(":")[0]
-            ctx.violation(f"threaded-server:{key}", a, repl)
+            ctx.violation(f"threaded-server:{key}", a, {**repl, "serve_raises_injected_for": list(serve_raises), "gauge_events": r["gauge_events"]})
+            h.broken = True
+        if r["anomalies"]:
+            return
         # ---- oracle 1: no more than max_connections served at once (the gauge is in the implementation)
         if maxc is not None and r["hw"] > maxc:
             ctx.violation("more-than-max_connections-served-at-once", f"gauge high-water {r['hw']} > max_connections {maxc}", {**repl, "gauge_events": r["gauge_events"]})
@@ -340,6 +347,8 @@ def run(ctx: Any) -> None:
                 ctx.count("solo_runs")
                 if rs["anomalies"]:
                     ctx.violation("threaded-server:solo-run-anomaly", "; ".join(rs["anomalies"]), {**repl, "connection": i})
+                    h.broken = True
+                    return
                 solo_cache[key] = rs["traces"][0]
                 sk = json.dumps([sc, [progs[c[1] if c[0] == 'unary' else c[2]] for c in sc]], sort_keys=True)
                 solo_cases.setdefault(sk, (c_calls(progs, sc), c_traces(rs["traces"][0])))
@@ -363,7 +372,7 @@ def run(ctx: Any) -> None:
         for kind in ("unix", "tcp"):
             for maxc in maxcs:
                 one_case(name, kind, maxc, progs, scripts, fixed if (fixed is not None and maxc is None) else None, raises)
-    n_random = 240 if thorough else 36
+    n_random = 140 if thorough else 36
     pid0 = 100
     for j in range(n_random):
         nconn = rng.choice([2, 3, 3] + ([4] if thorough else []))
@@ -388,14 +397,16 @@ def run(ctx: Any) -> None:
         ctx.violation("model-impl-disagree:concurrent-run", "the model replaying the observed schedule gives other traces / phases / served counts than the implementation",
                       {**model_info[i], "model": shown[-2500:]})
     solos = list(solo_cases.values())
-    ok2, bad2, log2 = ctx.coq_mismatches(HEADER, "solo_case", "list_eqb trace_eqb", solos, CALLS_TY, "list (list event)", shard=40)
-    ctx.obligation("correspondence:M_ConnIso.solo_case", "correspondence", ok2 and not bad2 and bool(solos), log2 if not ok2 else f"{len(bad2)} of {len(solos)} solo runs disagree")
-    ok3, bad3, log3 = ctx.coq_mismatches(HEADER, "seq_calls", "list_eqb trace_eqb", solos, CALLS_TY, "list (list event)", shard=40)
-    ctx.obligation("correspondence:M_ConnIso.seq_calls(run_pipe)", "correspondence", ok3 and not bad3 and bool(solos), log3 if not ok3 else f"{len(bad3)} of {len(solos)} solo runs disagree with run_pipe call by call")
-    for which, bad in (("solo_case", bad2), ("seq_calls", bad3)):
-        for i in bad[:2]:
-            shown = ctx.coq_show(HEADER, f"{which} {solos[i][0]}")
-            ctx.violation(f"model-impl-disagree:{which}", "a connection served alone observes something else than the model", {"calls": solos[i][0][:3000], "impl": solos[i][1][:3000], "model": shown[-2000:]})
+    # one evaluation for both readings of "alone": the machine run alone (solo_case) and the calls one after the other on run_pipe (seq_calls)
+    hdr2 = HEADER + "Definition both (cs : list (prog * script)) := (solo_case cs, seq_calls cs).\n"
+    ok2, bad2, log2 = ctx.coq_mismatches(hdr2, "both", "pair_eqb (list_eqb trace_eqb) (list_eqb trace_eqb)", [(a, f"({b}, {b})") for a, b in solos],
+                                         CALLS_TY, "list (list event) * list (list event)", shard=40)
+    ctx.obligation("correspondence:M_ConnIso.solo_case+seq_calls(run_pipe)", "correspondence", ok2 and not bad2 and bool(solos),
+                   log2 if not ok2 else f"{len(bad2)} of {len(solos)} solo runs disagree with the machine run alone / with run_pipe call by call")
+    for i in bad2[:2]:
+        shown = ctx.coq_show(hdr2, f"both {solos[i][0]}")
+        ctx.violation("model-impl-disagree:solo-run", "a connection served alone observes something else than the model (machine alone, run_pipe per call)",
+                      {"calls": solos[i][0][:3000], "impl": solos[i][1][:3000], "model": shown[-2500:]})
     ctx.count("model_cases", len(model_cases) + 2 * len(solos))
     shutil.rmtree(tmp, ignore_errors=True)
     ctx.assumptions += [
